@@ -11,11 +11,16 @@
 (* one atomic step (standard library; its 4096-byte refills are exercised  *)
 (* on the real binary by generated long inputs, not here).                 *)
 (*                                                                         *)
-(* Trim = "always" is the code as it stands (line = line[:len(line)-1]     *)
-(* whenever len(line) > 0); Trim = "ifdelim" strips only a delimiter.  TLC *)
-(* checks the reader against Records for EVERY input of length <= MaxLen   *)
-(* over Sym \cup {D}; a mismatch found here is a lead that the harness     *)
-(* reproduces (or refutes) on the real binary.                             *)
+(* Trim = "ifdelim" is the reader as it is now (strips the last byte only   *)
+(* when it is the delimiter).  Trim = "always" is the reader as it was      *)
+(* before the fix of the defect this check found (line = line[:len(line)-1] *)
+(* whenever len(line) > 0, so an unterminated final record lost its last    *)
+(* byte); it is kept as a second implementation-shaped variant: TLC shows   *)
+(* the input on which it departs from Records (ToNsq_asis.cfg), and the     *)
+(* harness reports which of the two variants the real binary agrees with.   *)
+(* TLC checks the reader against Records for EVERY input of length <=       *)
+(* MaxLen over Sym \cup {D}; a mismatch found in the model is a lead that   *)
+(* the harness reproduces (or refutes) on the real binary.                  *)
 (***************************************************************************)
 EXTENDS Integers, Sequences, FiniteSets, TLC
 
